@@ -18,6 +18,9 @@ use uuid::Uuid;
 pub(crate) fn build_full_sync(world: &mut World) -> Result<Vec<Message>, Box<dyn Error>> {
     let mut result: Vec<Message> = Vec::new();
     check_entity_components(world, &mut result)?;
+    // every entity before any component: a component can name other entities (the joints of a SkinnedMesh) that an
+    // archetype further down lists, and a snapshot larger than one tick's budget reaches the client over several frames
+    result.sort_by_key(|msg| !matches!(msg, Message::EntitySpawn { .. }));
     check_parents(world, &mut result)?;
     check_images(world, &mut result)?;
     check_materials(world, &mut result)?;
